@@ -171,6 +171,8 @@ def kind_of(convention):
 def _same(p, q):
     if p is None or q is None:
         return p is None and q is None
+    if p.is_empty or q.is_empty:
+        return p.is_empty and q.is_empty
     a = [tuple(c) for c in p.exterior.coords[:-1]]
     b = [tuple(c) for c in q.exterior.coords[:-1]]
     if len(a) != len(b):
